@@ -212,3 +212,31 @@ Example C06_lone_station_example :
   ex_lone_trace = Ok [(KListenToken, None, 0%nat); (KListenToken, None, 0%nat); (KClaimToken, Some [220; 1; 1], 0%nat)].
 Proof. vm_compute. reflexivity. Qed.
 
+
+(* ------------------------------------------------------------------------------------------ *)
+(* ORACLE SOUNDNESS, PARTIAL (see Properties/C01.v for model_transcript and the hypotheses; all input
+   histories): the monitor rule R06_no_claim_after_timeout ("a listening / idle station that
+   has certainly seen nothing for its time-out claims the token in this poll") is never reported on a
+   transcript of the model.  NOT covered: R06_no_backoff.
+   FULL: forall r, In (k, r) (monitor ..) -> rule_prop r <> PC06. *)
+From PB Require Import Params C05Proofs FdlOracle FdlOracleSound1 FdlOracleSound3.
+
+Theorem C06_oracle_sound_partial : forall (A : Type) (ops : app_ops A) (p : params),
+  apps_total A ops -> builder_valid p ->
+  forall (apps : list A) (ins : list minput),
+  ins_ok 0 ins ->
+  forall k r, In (k, r) (monitor p (length apps) (model_transcript A ops p apps ins)) -> r <> R06_no_claim_after_timeout.
+Proof. exact c06_claim_oracle_sound. Qed.
+Print Assumptions C06_oracle_sound_partial.
+
+(* ORACLE SOUNDNESS, FULL (Proofs/FdlOracleSound8.v, FdlOracleSoundAll.v): no rule of C06 - R06_no_claim_after_timeout, R06_no_backoff
+   (the executable form of theorem C06_backoff) - is reported on a transcript of the model, for ALL input
+   histories and applications that hand data telegrams to the PHY (app_sends_data, see Properties/C13.v). *)
+From PB Require Import FdlOracleSound5 FdlOracleSoundAll.
+
+Theorem C06_oracle_sound : forall (A : Type) (ops : app_ops A) (p : params),
+  apps_total A ops -> builder_valid p -> app_sends_data A ops ->
+  forall (apps : list A) (ins : list minput), ins_ok 0 ins ->
+  forall k r, In (k, r) (monitor p (length apps) (model_transcript A ops p apps ins)) -> rule_prop r <> PC06.
+Proof. exact c06_oracle_sound. Qed.
+Print Assumptions C06_oracle_sound.
